@@ -6,6 +6,12 @@
     table_manager.go DeleteVrf + table.go deleteRTCPathsByVrf + vrf.go
       isLastTargetUser (withdraw the local membership of a target no remaining VRF
       imports)                                                                      -> delVrfRtm
+    destination.go Calculate on an RT-membership destination (comparator reduced to
+      LOCAL_PREF, then "locally originated first")                                  -> rUpdate
+    table.go deleteRTCPathsByVrf, inner loop: the FIRST LOCAL path of the destination,
+      non-local paths before it are skipped                                         -> scanLocal
+    server.go AddVrf / DeleteVrf (TableManager call + propagateUpdate of the returned
+      membership paths), received memberships of neighbours with the same origin AS  -> Mgr.addVrf / delVrf / recv
 -/
 import Model.VrfRtc
 namespace VrfRtc
@@ -20,5 +26,75 @@ def isLastTargetUser (rest : List Vrf) (k : Nat) : Bool := rest.all (fun w => !w
     code ranges over the import MAP, so each key is considered once -/
 def delVrfRtm (v : Vrf) (rest : List Vrf) : List Nat :=
   (v.imports.eraseDups).filter (isLastTargetUser rest)
+
+/-! ## the RT-membership destinations this speaker originates into -/
+
+/-- one path of an RT-membership destination `(local AS, RT)`: `src = 0` is this speaker, any other
+    value an iBGP neighbour announcing the identical NLRI -/
+structure RPath where
+  src  : Nat
+  pref : Nat
+deriving DecidableEq, Repr, Inhabited
+
+/-- LOCAL_PREF first, then locally originated before received -/
+def rkey (p : RPath) : Nat := p.pref * 2 + (if p.src == 0 then 1 else 0)
+
+/-- implicit / explicit withdraw of the path of that source (at most one per source) -/
+def rRemove (l : List RPath) (src : Nat) : List RPath := l.filter (fun q => q.src != src)
+
+def rInsert : List RPath → RPath → List RPath
+  | [], p => [p]
+  | q :: r, p => if rkey q < rkey p then p :: q :: r else q :: rInsert r p
+
+/-- destination.Calculate -/
+def rUpdate (l : List RPath) (p : RPath) (wd : Bool) : List RPath :=
+  if wd then rRemove l p.src else rInsert (rRemove l p.src) p
+
+/-- deleteRTCPathsByVrf: `for _, p := range dest.knownPathList { if p.IsLocal() { collect; return } }` -/
+def scanLocal : List RPath → Bool
+  | [] => false
+  | p :: r => if p.src == 0 then true else scanLocal r
+
+/-- the VRF table and the RT-membership destinations keyed by RT (origin AS = local AS) -/
+structure Mgr where
+  vrfs : List Vrf
+  rtc  : Nat → List RPath
+
+def Mgr.empty : Mgr := ⟨[], fun _ => []⟩
+
+/-- propagateUpdate of locally originated membership paths (LOCAL_PREF absent = 100) -/
+def localUpdate (rtc : Nat → List RPath) (ks : List Nat) (wd : Bool) : Nat → List RPath :=
+  ks.foldl (fun t k => fun x => if x = k then rUpdate (t k) ⟨0, 100⟩ wd else t x) rtc
+
+/-- AddVrf (an existing name is an error and changes nothing) -/
+def Mgr.addVrf (m : Mgr) (v : Vrf) : Mgr :=
+  if m.vrfs.any (fun w => w.name == v.name) then m
+  else ⟨v :: m.vrfs, localUpdate m.rtc (addVrfRtm v) false⟩
+
+/-- DeleteVrf: new state and the RT keys whose local membership is withdrawn -/
+def Mgr.delVrf (m : Mgr) (name : Nat) : Mgr × List Nat :=
+  match m.vrfs.find? (fun w => w.name == name) with
+  | none => (m, [])
+  | some v =>
+    let rest := m.vrfs.filter (fun w => w.name != name)
+    let ws := (delVrfRtm v rest).filter (fun k => scanLocal (m.rtc k))
+    (⟨rest, localUpdate m.rtc ws true⟩, ws)
+
+/-- a neighbour's membership for the same NLRI announced / withdrawn -/
+def Mgr.recv (m : Mgr) (k : Nat) (p : RPath) (wd : Bool) : Mgr :=
+  ⟨m.vrfs, fun x => if x = k then rUpdate (m.rtc k) p wd else m.rtc x⟩
+
+inductive MOp where
+  | add (v : Vrf)
+  | del (name : Nat)
+  | recv (k : Nat) (p : RPath) (wd : Bool)
+deriving Repr
+
+def Mgr.step (m : Mgr) : MOp → Mgr
+  | .add v => m.addVrf v
+  | .del n => (m.delVrf n).1
+  | .recv k p wd => m.recv k p wd
+
+def Mgr.run (ops : List MOp) : Mgr := ops.foldl Mgr.step Mgr.empty
 
 end VrfRtc
